@@ -51,12 +51,13 @@ package bulkhead
 
 //@ func (*executor).PreExecute
 //@   requires e != nil && e.bulkhead != nil && e.config != nil && exec != nil
+//@   beforecall e.onFull: assert [C14.user_callback_gets_copy] userCopy(callarg_0.ExecutionAttempt)
 //@   ext ctx := reti(exec.Context, 1)
 //@   ensures [C06.pre.admitted] result == nil ==> tokens(e.semaphore) == old(tokens(e.semaphore)) + 1 && ncalls(e.onFull) == 0
 //@   ensures [C06.pre.refused] result != nil ==> tokens(e.semaphore) == old(tokens(e.semaphore)) && result.Error != nil && result.Done && !result.Success
 //@   ensures [C16.bulkhead.onfull] result != nil && e.onFull != nil ==> ncalls(e.onFull) == b2i(ufb("errors.Is", result.Error, ErrFull))
 //@   havoc
-//@   modifies tokens(e.semaphore), calls(exec.Context), calls(e.onFull), calls(ctx.Done), calls(ctx.Err), calls(background().Done), calls(background().Err), canceled(ctx), canceled(background())
+//@   modifies tokens(e.semaphore), calls(exec.Context), calls(exec.CopyWithResult), calls(e.onFull), calls(ctx.Done), calls(ctx.Err), calls(background().Done), calls(background().Err), canceled(ctx), canceled(background())
 
 //@ func (*executor).PostExecute
 //@   requires e != nil && e.bulkhead != nil
@@ -76,4 +77,4 @@ package bulkhead
 //@   ensures [C06.refused_skips_inner] ncalls(innerFn) == 0 ==> result.Error != nil && !result.Success
 //@   ensures [C06.admitted_returns_inner] ncalls(innerFn) == 1 ==> result == ret(innerFn, 1) && arg(innerFn, 1, 0) == exec
 //@   havoc
-//@   modifies calls(innerFn), calls(exec.Context), calls(e.onFull), calls(ctx.Done), calls(ctx.Err), calls(background().Done), calls(background().Err), canceled(ctx), canceled(background())
+//@   modifies calls(innerFn), calls(exec.Context), calls(exec.CopyWithResult), calls(e.onFull), calls(ctx.Done), calls(ctx.Err), calls(background().Done), calls(background().Err), canceled(ctx), canceled(background())
